@@ -452,3 +452,796 @@ def group_type(D, forms=None):
         for k in range(1, v + 1):
             out += [l ** k] * (cnt[k - 1] - cnt[k])
     return sorted(out)
+
+
+# ================================================================ discriminant generators
+
+TABLE_BOUND = {"quick": 40000, "thorough": 1000000}
+_TABLE = {"X": 0, "cnt": []}
+
+
+def table_upto(X):
+    if _TABLE["X"] < X:
+        _TABLE["cnt"] = reduced_table(X)
+        _TABLE["X"] = X
+    return _TABLE["cnt"]
+
+
+_REF_CACHE = {}
+
+# class numbers documented in /repo/README_classgroup.md (used only when |D| is out of reach of the reference)
+README_H = {
+    -672772578839: 959482,
+    -560979400532204839: 594097986,
+    -367908113612190744468907: 73361502182,
+    -835530720420926898479116136119: 589709265061998,
+}
+FAST_LIMIT = 1 << 46        # class_number_fast is used up to here (sqrt(|D|/3) ~ 4.8e6)
+
+
+def reference_h(D):
+    """independent class number or None when out of reach"""
+    if D in _REF_CACHE:
+        return _REF_CACHE[D]
+    n = -D
+    if n < _TABLE["X"]:
+        h = _TABLE["cnt"][n]
+    elif n < 3000:
+        h = len(reduced_forms(D))
+    elif n < FAST_LIMIT:
+        h = class_number_fast(D)
+    else:
+        h = README_H.get(D)
+    _REF_CACHE[D] = h
+    return h
+
+
+def random_fundamental(rng, bits, cls=None):
+    """random fundamental discriminant with |D| of exactly `bits` bits; cls in {1, 5, 8, 12}: D mod 8 = 1, 5 resp.
+    D mod 16 = 8, 12. Squarefreeness is exact for bits <= 60 (trial division), otherwise D is built as -(4|8)*prime
+    or -prime so that it is fundamental by construction."""
+    cls = cls or rng.choice([1, 5, 8, 12])
+    if bits <= 12:
+        want = {1: (1, 8), 5: (5, 8), 8: (8, 16), 12: (12, 16)}[cls]
+        cand = [-n for n in range(max(3, 1 << (bits - 1)), 1 << bits) if is_fundamental(-n)]
+        sel = [D for D in cand if D % want[1] == want[0]] or cand or [-3]
+        return rng.choice(sel)
+    for _ in range(100000):
+        if bits <= 60:
+            if cls in (1, 5):
+                n = rng.getrandbits(bits) | (1 << (bits - 1))
+                n = n - (n % 8) + (8 - cls)               # D = -n = cls mod 8
+                if n.bit_length() != bits or n < 3:
+                    continue
+                D = -n
+            else:
+                mb = bits - (3 if cls == 8 else 2)
+                if mb < 1:
+                    continue
+                m = rng.getrandbits(mb) | (1 << (mb - 1)) | 1
+                if cls == 8:
+                    D = -8 * m                            # D/4 = -2m = 2 mod 4
+                else:
+                    m = m - (m % 4) + 1                   # D/4 = -m = 3 mod 4
+                    if m.bit_length() != mb or m < 1:
+                        continue
+                    D = -4 * m
+                if (-D).bit_length() != bits:
+                    continue
+            if is_fundamental(D):
+                return D
+        else:
+            if cls in (1, 5):
+                p = rng.getrandbits(bits) | (1 << (bits - 1))
+                p = p - (p % 8) + (8 - cls)
+                if p.bit_length() == bits and is_prime(p):
+                    return -p
+            elif cls == 8:
+                p = rng.getrandbits(bits - 3) | (1 << (bits - 4)) | 1
+                if is_prime(p):
+                    return -8 * p
+            else:
+                p = rng.getrandbits(bits - 2) | (1 << (bits - 3))
+                p = p - (p % 4) + 1
+                if p.bit_length() == bits - 2 and is_prime(p):
+                    return -4 * p
+    raise RuntimeError("no discriminant found")
+
+
+def composite_fundamental(rng, bits, nf):
+    """fundamental discriminant -(p1 ... pnf) or -4(...) with known distinct odd prime factors (2-rank = nf - 1 resp. nf)"""
+    while True:
+        ps = set()
+        while len(ps) < nf:
+            b = max(3, bits // nf + rng.randrange(-1, 2))
+            p = rng.getrandbits(b) | (1 << (b - 1)) | 1
+            if is_prime(p):
+                ps.add(p)
+        n = 1
+        for p in ps:
+            n *= p
+        D = -n if n % 4 == 3 else -4 * n
+        if abs((-D).bit_length() - bits) <= 3:
+            return D, sorted(ps)
+
+
+def dclass(D):
+    if D % 2:
+        return "1mod8" if D % 8 == 1 else "5mod8"
+    return "8mod16" if D % 16 == 8 else ("12mod16" if D % 16 == 12 else "nonfund")
+
+
+def sizeclass(D):
+    b = (-D).bit_length()
+    for lim in (16, 32, 40, 64, 100, 128):
+        if b <= lim:
+            return f"<={lim}b"
+    return ">128b"
+
+
+# ================================================================ cases
+
+def bplus_cases(rng, n):
+    ps = [p for p in small_primes(2000) if p > 2]
+    for i in range(n):
+        c = rng.randrange(6)
+        if c == 0:
+            p = rng.choice(ps[:20])
+        elif c == 1:
+            p = rng.choice(ps)
+        else:
+            b = rng.choice([12, 16, 20, 24, 24, 28, 30])      # Dividers::new needs p < 2^30
+            while True:
+                p = rng.getrandbits(b) | (1 << (b - 1)) | 1
+                if is_prime(p):
+                    break
+        r = rng.choice([0, 1, p - 1, p // 2, (p + 1) // 2, rng.randrange(p), rng.randrange(p), rng.randrange(p)])
+        even = rng.choice(["true", "false"])
+        yield Case(f"cg_b_plus {p} {r} {even}")
+    for p in (2, 3, 5, 7):
+        for r in range(p + 1):
+            for even in ("true", "false"):
+                if r <= p:
+                    yield Case(f"cg_b_plus {p} {r} {even}", o=(r < p))
+    # r > p: u64 underflow, only the checked profile has a defined behaviour
+    for _ in range(20):
+        p = rng.choice(ps)
+        yield Case(f"cg_b_plus {p} {p + 1 + 2 * rng.randrange(5) + (p % 2 == 0)} false", o=False, profiles=["chk"])
+
+
+def show_fac(pe):
+    return f"{pe[0]}^{pe[1]}"
+
+
+def show_rel(fs, l1, l2):
+    f = ".".join(show_fac(x) for x in fs) if fs else "-"
+    return f"{f}/{show_fac(l1) if l1 else '_'}/{show_fac(l2) if l2 else '_'}"
+
+
+def parse_fac(s):
+    p, e = s.split("^")
+    return int(p), int(e)
+
+
+def parse_rel(s):
+    f, l1, l2 = s.split("/")
+    fs = [] if f == "-" else [parse_fac(x) for x in f.split(".")]
+    return fs, (None if l1 == "_" else parse_fac(l1)), (None if l2 == "_" else parse_fac(l2))
+
+
+def history_cases(rng, n):
+    for i in range(n):
+        npool = rng.choice([2, 3, 5, 8, 12, 30, 80])
+        pool = rng.sample(range(101, 101 + 4 * npool), npool)
+        if rng.randrange(15) == 0:
+            pool.append(rng.choice([(1 << 32) - 1, (1 << 32) - 5, 4294967291]))
+        maxlarge = rng.choice([1000, 1000, 1000, 101 + 2 * npool, 0, (1 << 32) - 1])
+        nrel = rng.choice([1, 3, 8, 20, 40, 90])
+        rels = []
+        for _ in range(nrel):
+            fs = [(rng.choice([2, 3, 5, 7, 11, 13]), rng.choice([-3, -2, -1, 1, 1, 2, 0 if rng.randrange(9) == 0 else 1]))
+                  for _ in range(rng.randrange(0, 4))]
+            c = rng.randrange(12)
+            sg = lambda: rng.choice([-2, -1, 1, 1, 2])
+            if c < 3:
+                rels.append(show_rel(fs, None, None))
+            elif c < 7:
+                rels.append(show_rel(fs, (rng.choice(pool), sg()), None))
+            elif c < 11:
+                p, q = rng.choice(pool), rng.choice(pool)
+                if p == q and rng.randrange(40):          # p == q: assert!(p != q) fires, keep it rare
+                    q = rng.choice([x for x in pool if x != p])
+                rels.append(show_rel(fs, (p, sg()), (q, sg())))
+            else:
+                rels.append(show_rel(fs, None, (rng.choice(pool), sg())))
+        yield Case(f"cg_crel_history {maxlarge} {';'.join(rels)}")
+    yield Case("cg_crel_history 1000 -")
+
+
+def fundamental_range(lo, hi):
+    for n in range(lo, hi):
+        if is_fundamental(-n):
+            yield -n
+
+
+FULL_QUICK = [
+    # (bits, how many) : every class of D mod 16 is cycled through
+    (8, 4), (14, 4), (24, 4), (31, 4), (36, 4), (48, 4), (62, 4), (80, 4), (100, 4), (120, 2), (128, 2),
+]
+
+
+def cases(tier, rng, extended=False):
+    quick = tier == "quick"
+    scale = 1 if quick else 6
+    X = TABLE_BOUND[tier]
+    if extended:
+        scale *= 5
+        X = max(X, 400000)
+    table_upto(X)
+    yield from bplus_cases(rng, 1500 * scale)
+    yield from history_cases(rng, 400 * scale)
+    # ---- factor bases: b_plus of the real factor base against the documented convention
+    for i in range(60 * scale):
+        bits = rng.choice([5, 10, 20, 30, 40, 64, 100, 128])
+        D = random_fundamental(rng, bits)
+        yield Case(f"cg_fb_bplus {D} {rng.choice([8, 16, 40, 120])}", k=False)
+    # ---- class numbers, exhaustively below the bound
+    i = 0
+    for D in fundamental_range(3, X):
+        yield Case(f"cg_h {D} 0", k=False, timeout=60)
+        i += 1
+        if i % 23 == 0:
+            yield Case(f"cg_h {D} {rng.choice([2, 3, 4])}", k=False, timeout=60)
+    # ---- random fundamental discriminants with an independent reduced-form count
+    top = 34 if quick else 40
+    if extended:
+        top = 40
+    for i in range(160 * scale):
+        bits = rng.randrange(16, top + 1)
+        D = random_fundamental(rng, bits, [1, 5, 8, 12][i % 4])
+        yield Case(f"cg_h {D} {rng.choice([0, 0, 0, 3])}", k=False, timeout=120)
+    for i in range(4 if quick else 16):
+        D = random_fundamental(rng, rng.randrange(41, 45), [1, 5, 8, 12][i % 4])
+        yield Case(f"cg_h {D} 0", k=False, timeout=120)
+    # ---- known 2-rank (composite discriminants with known factors), larger sizes: necessary conditions only
+    for i in range(24 * scale):
+        bits = rng.choice([30, 40, 50, 64, 80, 100])
+        D, ps = composite_fundamental(rng, bits, rng.choice([2, 3, 4, 5]))
+        yield Case(f"cg_h {D} {rng.choice([0, 0, 2])}", k=False, timeout=120, tag="f=" + ",".join(map(str, ps)))
+    # ---- full runs with an output directory: every relation line is checked
+    for bits, cnt in FULL_QUICK:
+        for rep in range(1 if quick else 3):
+            for j, cls in enumerate([1, 5, 8, 12]):
+                for threads in ((0, 3) if cnt >= 4 else ((0, 3)[(j + rep) % 2],)):
+                    D = random_fundamental(rng, bits, cls) if bits > 8 else {1: -23, 5: -83, 8: -56, 12: -84}[cls]
+                    yield Case(f"cg_full {D} {threads}", k=False, timeout=240)
+    # ---- the real sieve polynomial by polynomial (hook): sign decision replayed by the model
+    for i in range(50 * scale):
+        bits = rng.choice([6, 12, 20, 30, 34, 40, 50, 64, 72, 90, 110, 128])
+        D = random_fundamental(rng, bits, [1, 5, 8, 12][i % 4])
+        firsts = [0] if bits <= 32 else sorted(rng.sample(range(0, 24), 3))
+        for first in firsts:
+            yield Case(f"cg_poly {D} {first} 1 25", k=False, timeout=120)
+    # ---- analytic estimate (reported, never judged: no theorem brackets h)
+    for i in range(60 * scale):
+        D = random_fundamental(rng, rng.randrange(4, 41))
+        yield Case(f"cg_estimate {D}", k=False, o=True)
+
+
+def corpus_case(line):
+    if line.startswith("!chk "):
+        return Case(line[5:], o=False, profiles=["chk"])
+    op = line.split(" ", 1)[0]
+    return Case(line, k=op in ("cg_b_plus", "cg_crel_history"), timeout=300)
+
+
+# ================================================================ oracle
+
+def _parse_h(ans):
+    """`h inv,inv` -> (h, [inv])"""
+    t = ans.split(" ")
+    h = int(t[0])
+    invs = [] if t[1] == "-" else [int(x) for x in t[1].split(",")]
+    return h, invs
+
+
+def _check_h(D, h, invs, tag=""):
+    ref = reference_h(D)
+    if ref is not None and h != ref:
+        return f"class number {h} reported for D = {D}, true class number {ref}"
+    prod = 1
+    for d in invs:
+        if d <= 1:
+            return f"invariant {d} listed for D = {D}"
+        prod *= d
+    if prod != h:
+        return f"invariants {invs} multiply to {prod}, not to the reported class number {h} (D = {D})"
+    n = -D
+    # 2-rank by genus theory: number of even invariants = (number of prime divisors of D) - 1
+    t = None
+    if tag.startswith("f="):
+        t = len(tag[2:].split(",")) + (1 if D % 2 == 0 else 0)
+    elif n < (1 << 36):
+        t = len(factor_small(n))
+    if t is not None:
+        ev = sum(1 for d in invs if d % 2 == 0)
+        if ev != t - 1:
+            return f"D = {D} has {t} prime divisors, the 2-rank of the class group is {t - 1}, reported invariants {invs}"
+    # isomorphism type against the orders of all reduced forms (cheap cases, and every non-cyclic odd part)
+    if ref is not None and n < 3000000 and h <= 400:
+        canon = canonical_invariants(invs)
+        odd_noncyclic = any(canon.count(q) > 1 or any(q2 != q and q2 % 2 and math.gcd(q, q2) > 1 for q2 in canon) for q in canon if q % 2)
+        if odd_noncyclic or n % 17 == 0 or h <= 40:
+            want = _GT_CACHE.get(D)
+            if want is None:
+                want = _GT_CACHE[D] = group_type(D)
+            if canon != want:
+                return f"D = {D}: reported invariants {invs} (type {canon}), class group has type {want}"
+    if ref is None:
+        # necessary conditions: h annihilates prime forms; gross analytic sanity
+        cnt = 0
+        for p in small_primes(400):
+            f = prime_form(D, p)
+            if f is None or D % p == 0:
+                continue
+            if form_pow(f, h, D) != form_principal(D):
+                return f"D = {D}: [{p}]^h is not principal for the reported h = {h}"
+            cnt += 1
+            if cnt >= 5:
+                break
+        est = analytic_estimate(D)
+        if not (0.75 * est <= h <= 1.25 * est):
+            return f"D = {D}: reported h = {h} is not within 25% of the Euler product estimate {est:.6g}"
+    return None
+
+
+_GT_CACHE = {}
+_EST_PRIMES = []
+
+
+def analytic_estimate(D):
+    """sqrt|D|/pi * prod_{p < 2e5} (1 - (D/p)/p)^-1 (floats; used only as a gross sanity window)"""
+    global _EST_PRIMES
+    if not _EST_PRIMES:
+        _EST_PRIMES = small_primes(200000)
+    lg = 0.0
+    for p in _EST_PRIMES:
+        chi = kronecker_prime(D, p)
+        if chi:
+            lg -= math.log1p(-chi / p)
+    return math.sqrt(-D) / math.pi * math.exp(lg)
+
+
+def _line_entries(s):
+    return [] if s in ("e", "") else [int(x) for x in s.split(",")]
+
+
+def _rel_entries(fs, l1, l2):
+    out = []
+    for p, e in fs + ([l1] if l1 else []) + ([l2] if l2 else []):
+        out += [p if e > 0 else -p] * abs(e)
+    return out
+
+
+def _check_lines(D, lines, what):
+    cache = {}
+    pr = form_principal(D)
+    for i, ent in enumerate(lines):
+        v = relation_value(D, ent, cache)
+        if isinstance(v, str):
+            return f"D = {D}: {what} {i}: {v}: {' '.join(map(str, ent))}"
+        if v != pr:
+            return f"D = {D}: {what} {i} is not trivial in the class group (product of prime forms reduces to {v}): {' '.join(map(str, ent))}"
+    return None
+
+
+def parse_full(ans):
+    hs, gens, rels, files = ans.split(" | ")
+    h, invs = _parse_h(hs)
+    g = []
+    if gens != "-":
+        for t in gens.split(";"):
+            p, v = t.split(":")
+            g.append((int(p), [] if v == "-" else [int(x) for x in v.split(",")]))
+    lines = [] if rels == "-" else [_line_entries(t) for t in rels.split(";")]
+    return h, invs, g, lines, files
+
+
+def parse_poly(ans):
+    parts = ans.split(" | ")
+    head = dict(t.split("=") for t in parts[0].split(" "))
+    fb = [tuple(map(int, t.split(":"))) for t in head["fb"].split(",")]
+    cond = [] if head["cond"] == "-" else [int(x) for x in head["cond"].split(",")]
+    polys = []
+    for t in parts[1:]:
+        ty, a, b, c, af, qf, rels = t.split(" ")
+        polys.append(dict(
+            type=int(ty), a=int(a), b=int(b), c=int(c),
+            af=[] if af == "-" else [tuple(map(int, x.split(":"))) for x in af.split(",")],
+            qf=[] if qf == "-" else [parse_fac(x) for x in qf.split(".")],
+            rels=[] if rels == "-" else [parse_rel(x) for x in rels.split(";")]))
+    return dict(fb=fb, cond=cond, maxlarge=int(head["maxlarge"]), maxdouble=int(head["maxdouble"]),
+                mm=int(head["mm"]), polys=polys)
+
+
+def oracle(case, ans):
+    op, a = case.op, case.args
+    if op == "cg_b_plus":
+        p, r, even = int(a[0]), int(a[1]), a[2] == "true"
+        if not ans.isdigit():
+            return f"no value ({ans})"
+        b = int(ans)
+        base = 2 * r if even else r
+        if not (0 <= b <= p and ((b - base) % p == 0 or (b + base) % p == 0)):
+            return f"b_plus = {b} is not +-{'2r' if even else 'r'} mod p in [0, p]"
+        if p > 2 and base % p != 0 and b % 2 != (0 if even else 1):
+            return f"b_plus = {b} has the wrong parity"
+        return None
+    if op == "cg_crel_history":
+        return oracle_history(case, ans)
+    if ans in ("panic", "abort", "hang", "?"):
+        # C18 speaks about returned results; a refusal is not a wrong result (counted in the distribution)
+        return None if ans in ("panic", "hang") else f"no answer ({ans})"
+    D = int(a[0])
+    if op == "cg_fb_bplus":
+        kind, lst = ans.split(" ")
+        if (kind == "even") != (D % 4 == 0 and (D // 4) % 4 != 1):
+            return f"polynomial type {kind} for D = {D}"
+        dred = D // 4 if D % 4 == 0 else D
+        for t in lst.split(","):
+            p, r, b = map(int, t.split(":"))
+            if not is_prime(p) or (r * r - dred) % p:
+                return f"factor base entry {t}: r^2 != D mod p"
+            want = b_plus_of(D, p)
+            if p > 2 and b != want:
+                return f"D = {D}, p = {p}: b_plus = {b}, documented convention gives {want}"
+        return None
+    if op == "cg_estimate":
+        return None
+    if ans == "none":
+        return f"classgroup returned None without an abort request (D = {D})"
+    if op == "cg_h":
+        h, invs = _parse_h(ans)
+        return _check_h(D, h, invs, case.tag)
+    if op == "cg_full":
+        h, invs, gens, lines, files = parse_full(ans)
+        msg = _check_h(D, h, invs, case.tag)
+        if msg:
+            return msg
+        if files != f"classnumber={h}":
+            return f"D = {D}: file classnumber says {files}, returned h = {h}"
+        if not lines:
+            return f"D = {D}: relations.sieve is empty"
+        msg = _check_lines(D, lines, "relations.sieve line")
+        if msg:
+            return msg
+        # coordinates: every emitted relation supported on the generators maps to 0, orders agree with the forms
+        coords = dict(gens)
+        for p, v in gens:
+            if len(v) != len(invs):
+                return f"D = {D}: generator {p} has {len(v)} coordinates for {len(invs)} cyclic factors"
+        for i, ent in enumerate(lines):
+            if all(abs(x) in coords for x in ent):
+                for j, d in enumerate(invs):
+                    if sum((1 if x > 0 else -1) * coords[abs(x)][j] for x in ent) % d:
+                        return f"D = {D}: coordinates do not kill relation line {i}: {ent}"
+        hfac = factor_small(h) if h < (1 << 40) else None
+        if hfac:
+            for p, v in gens[:6]:
+                o = 1
+                for j, d in enumerate(invs):
+                    oj = d // math.gcd(d, v[j])
+                    o = o * oj // math.gcd(o, oj)
+                f = prime_form(D, p)
+                if f is None:
+                    return f"D = {D}: generator {p} is not the norm of a prime ideal"
+                # true order of [p]
+                t = h
+                for l, e in hfac:
+                    for _ in range(e):
+                        if form_pow(f, t // l, D) == form_principal(D):
+                            t //= l
+                if t != o:
+                    return f"D = {D}: [{p}] has order {t} in the class group, its coordinates {v} have order {o} in {invs}"
+        return None
+    if op == "cg_poly":
+        tr = parse_poly(ans)
+        ents = []
+        for pol in tr["polys"]:
+            disc = pol["b"] ** 2 - 4 * pol["a"] * pol["c"] if pol["type"] == 2 else 4 * (pol["b"] ** 2 - pol["a"] * pol["c"])
+            if disc != D:
+                return f"D = {D}: polynomial ({pol['a']}, {pol['b']}, {pol['c']}) type {pol['type']} has discriminant {disc}"
+            for r in pol["rels"]:
+                ents.append(_rel_entries(*r))
+        return _check_lines(D, ents, "sieved relation")
+    return "unknown op"
+
+
+def oracle_history(case, ans):
+    """independent bookkeeping: union-find on the large prime graph (vertex 1 = no large prime)"""
+    maxlarge = int(case.args[0])
+    rels = [] if case.args[1] == "-" else case.args[1].split(";")
+    parent = {}
+
+    def find(x):
+        parent.setdefault(x, x)
+        while parent[x] != x:
+            parent[x] = parent[parent[x]]
+            x = parent[x]
+        return x
+    expect_panic = False
+    complete = 0
+    edges = set()
+    for s in rels:
+        fs, l1, l2 = parse_rel(s)
+        if l1 is None and l2 is None:
+            complete += 1
+            continue
+        if l1 is None:
+            continue
+        if l2 is None:
+            if l1[0] >= maxlarge:
+                continue
+            p, q = 1, l1[0]
+        else:
+            p, q = l1[0], l2[0]
+            if p == q:
+                expect_panic = True
+                break
+        if (1 << 32) - 1 in (p, q):
+            return None if True else None         # u32::MAX + 1: refusal is acceptable, nothing to judge
+        edges.add((min(p, q), max(p, q)))
+        rp, rq, r1 = find(p), find(q), find(1)
+        if rp == r1 and rq == r1:
+            complete += 1
+        else:
+            parent[rp] = rq
+    if expect_panic:
+        return None if ans == "panic" else "assert!(p != q) did not fire"
+    if ans == "panic":
+        return "panic on a valid history"
+    parts = ans.split(" | ")
+    emitted = [] if parts[0] == "-" else parts[0].split(";")
+    stored = [] if parts[2] == "stored=-" else [t.split("=", 1)[1] for t in parts[2][7:].split(";")]
+    # every emitted / stored relation is an input relation, not more often than it was input
+    pool = {}
+    for s in rels:
+        pool[s] = pool.get(s, 0) + 1
+    for s in emitted + stored:
+        if pool.get(s, 0) == 0:
+            return f"relation {s} emitted/stored more often than it was added (or never added)"
+        pool[s] -= 1
+    cnt = dict(t.split("=") for t in parts[4].split(" "))
+    if int(cnt["len"]) != complete:
+        return f"len() = {cnt['len']}, independent count of complete relations + cycles = {complete}"
+    # paths: a tree rooted at 1 made of input edges, covering exactly the component of 1
+    paths = {}
+    for t in parts[1][6:].split(","):
+        k, v = t.split(":")
+        paths[int(k)] = [int(x) for x in v.split(">")]
+    r1 = find(1)
+    comp = {v for v in list(parent) if find(v) == r1} | {1}
+    if set(paths) != comp:
+        return f"paths covers {sorted(paths)}, component of 1 is {sorted(comp)}"
+    for k, v in paths.items():
+        if v[0] != 1 or v[-1] != k:
+            return f"path of {k} is {v}"
+        for x, y in zip(v, v[1:]):
+            if (min(x, y), max(x, y)) not in edges:
+                return f"path of {k} uses {x}-{y} which is not an input edge"
+    # written lines = emitted relations in the documented format
+    lines = [] if parts[5] == "lines=-" else parts[5][6:].split(";")
+    want = [",".join(map(str, _rel_entries(*parse_rel(s)))) or "e" for s in emitted]
+    if lines != want:
+        return "relations.sieve lines differ from the emitted relations"
+    return None
+
+
+# ================================================================ model follow-ups (built from implementation answers)
+
+MAX_FU_LINES = 60
+
+
+def _triples(D, ent):
+    """p:b:e list for the model: b is the certified normalised root (the model re-checks it)"""
+    out = {}
+    order = []
+    for x in ent:
+        p = abs(x)
+        if p not in out:
+            out[p] = 0
+            order.append(p)
+        out[p] += 1 if x > 0 else -1
+    res = []
+    for p in order:
+        b = b_plus_of(D, p)
+        if b is None:
+            return None
+        res.append(f"{p}:{b}:{out[p]}")
+    return ",".join(res) if res else "-"
+
+
+def solve_x(pol, v, mm):
+    """the x with P(x) = v inside the sieve interval (None when not unique)"""
+    a, b, c = pol["a"], pol["b"], pol["c"]
+    if pol["type"] == 2:
+        disc = b * b - 4 * a * (c - v)
+        den, nb = 2 * a, -b
+    else:
+        disc = b * b - a * (c - v)
+        den, nb = a, -b
+    if disc < 0:
+        return None
+    y = isqrt(disc)
+    if y * y != disc:
+        return None
+    lo, hi = (0, mm) if a == 1 else (-(mm // 2), mm // 2)
+    xs = {(nb + s * y) // den for s in (1, -1) if (nb + s * y) % den == 0}
+    xs = [x for x in xs if lo <= x < hi]
+    return xs[0] if len(xs) == 1 else None
+
+
+def followup(case, ans):
+    op = case.op
+    if ans in ("panic", "abort", "hang", "?", "none"):
+        return None
+    if op == "cg_full":
+        D = int(case.args[0])
+        h, invs, gens, lines, files = parse_full(ans)
+        hflag = 1 if -D < 3000000 else 0
+        step = max(1, len(lines) // MAX_FU_LINES)
+        trs = []
+        for ent in lines[::step]:
+            t = _triples(D, ent)
+            if t is None:
+                return None                       # the oracle reports it
+            trs.append(t)
+        req = f"cg_full_model {D} {hflag} {h} {','.join(map(str, invs)) or '-'} {';'.join(trs) or '-'}"
+        return req, f"{h if hflag else '-'} true ok"
+    if op == "cg_h":
+        D = int(case.args[0])
+        if -D >= 200000 or int(case.args[1]) != 0:
+            return None
+        h, invs = _parse_h(ans)
+        return f"cg_full_model {D} 1 {h} {','.join(map(str, invs)) or '-'} -", f"{h} true ok"
+    if op == "cg_poly":
+        tr = parse_poly(ans)
+        if not tr["polys"]:
+            return None
+        pol = tr["polys"][-1]
+        fbd = dict(tr["fb"])
+        maxprime = tr["fb"][-1][0]
+        dbl = 1 if tr["maxdouble"] > maxprime * maxprime else 0
+        sA = dict(pol["qf"])
+        items, want, used = [], [], set(p for p, _ in pol["af"])
+        for fs, l1, l2 in pol["rels"][:MAX_FU_LINES]:
+            v = 1
+            for p, e in fs:
+                v *= p ** abs(e - sA.get(p, 0))
+            lp = lq = 1
+            if l1:
+                lp = l1[0]
+                v *= lp ** abs(l1[1])
+                if abs(l1[1]) == 2:
+                    lq = lp
+            if l2:
+                lq = l2[0]
+                v *= lq
+            x = solve_x(pol, v, tr["mm"])
+            if x is None:
+                continue
+            facs = [p for p, _ in tr["fb"] if v % p == 0]
+            used.update(facs)
+            items.append(f"{x}:{'+'.join(map(str, facs)) or '-'}:{lp}:{lq}")
+            want.append(show_rel(fs, l1, l2))
+        if not items:
+            return None
+        fbs = ",".join(f"{p}:{r}" for p, r in tr["fb"] if p in used) or "-"
+        af = ",".join(f"{p}:{r}" for p, r in pol["af"]) or "-"
+        cond = ",".join(map(str, tr["cond"])) or "-"
+        req = (f"cg_poly_model {pol['type']} {pol['a']} {pol['b']} {pol['c']} {maxprime} {tr['maxlarge']} {dbl} "
+               f"{cond} {fbs} {af} {';'.join(items)}")
+        return req, ";".join(want)
+    return None
+
+
+# ================================================================ distribution / texts
+
+def klass(case, ans):
+    op, a = case.op, case.args
+    bad = "/" + ans if ans in ("panic", "abort", "hang", "?", "none") else ""
+    if op == "cg_b_plus":
+        p, r = int(a[0]), int(a[1])
+        return f"cg_b_plus/{'even' if a[2] == 'true' else 'odd'}/{'p=2' if p == 2 else ('r=0' if r % p == 0 else ('r>p' if r > p else 'generic'))}{bad}"
+    if op == "cg_crel_history":
+        if bad:
+            return op + bad
+        parts = ans.split(" | ")
+        cnt = dict(t.split("=") for t in parts[4].split(" "))
+        cyc = [int(x) for x in cnt["cycles"].split(",")]
+        deep = "cycles>=3" if sum(cyc[2:]) else ("cycles2" if cyc[1] else "no-cycle")
+        return f"{op}/{deep}/{'stored' if parts[2] != 'stored=-' else 'nostored'}"
+    D = int(a[0])
+    base = f"{op}/{dclass(D)}/{sizeclass(D)}"
+    if op in ("cg_h", "cg_full"):
+        base += f"/t{a[1]}"
+    if op == "cg_estimate" and not bad:
+        ref = reference_h(D)
+        lo, hi = (int(x) for x in ans.split(" "))
+        if ref is not None:
+            base += "/brackets" if lo <= 1000 * ref <= hi else ("/within10%" if 0.9 * lo <= 1000 * ref <= 1.1 * hi else "/MISS")
+    if op == "cg_poly" and not bad:
+        tr = parse_poly(ans)
+        nl = sum(1 for pol in tr["polys"] for r in pol["rels"] if r[1])
+        base += "/large" if nl else "/nolarge"
+    return base + bad
+
+
+def nontrivial(case, ans):
+    return ans not in ("panic", "abort", "hang", "?", "none")
+
+
+def finding_key(case, ans, profile):
+    return None
+
+
+THEOREMS = ["Ymq.C18." + t for t in (
+    "b_plus_unique bPlus_spec_odd bPlus_spec_even sign_total sign_exclusive large_sign_consistent poly_factors_total "
+    "emitted_subset_inputs emit_hom emit_hom_map relLine_val reduced_enum_sound reduced_enum_complete reduced_enum_nodup reduced_enum "
+    "invariants_multiply invariantsOk_spec").split()]
+HYPOTHESES = [
+    "classNumber_is_reduced_count (definition, not proved): the class number h(D) of the imaginary quadratic order of discriminant D "
+    "is the number of reduced primitive positive definite forms of discriminant D (Gauss); `classNumber D` is DEFINED as that count, "
+    "theorem reduced_enum proves the enumeration exact",
+    "emit_hom takes the triviality of every INPUT relation as its hypothesis (phi kills the inputs): that a sieved relation is a genuine "
+    "relation needs the theory of composition of forms, which is not formalised here",
+    "invariants_multiply takes `diag.prod = h` (the Smith form output, property C19) as its hypothesis",
+]
+RULE = ("class numbers: every fundamental D with |D| below the tier bound (4*10^4 quick, 10^6 thorough), each also with a thread pool for a "
+        "1/23 sample; random fundamental D of 16..34 (quick) / 16..40 (thorough) bits in the four classes D mod 16 in {1 mod 8, 5 mod 8, 8, 12}, "
+        "some of 41..44 bits; composite D with known prime factors up to 100 bits (2-rank); full runs with an output directory for 8..128-bit D "
+        "(every relation line checked); the real sieve polynomial by polynomial through a hook (6..128 bits); b_plus on random primes up to 2^32 and "
+        "on real factor bases; random CRelationSet histories (0/1/2 large primes, pools of 2..80 large primes, refused and panicking shapes). "
+        "non-trivial = the implementation returned a result; distinct by request line")
+MODELLED = [
+    "fbase::Prime::b_plus word-exact (Ymq/Model/ClassGroup.lean bPlus)",
+    "siqs::Poly::eval and Poly::factors (signs of the primes of A), Int arithmetic (polyEval, polyFactors)",
+    "classgroup::sieve_block_poly after `smooths`: fbase::cofactor trial division and large prime rules, conversion of integer factors "
+    "to signed ideal factors (b mod p against b_plus, p = 2 rule, conductor primes, large prime parity), merge with the factors of A (relationOf)",
+    "relationcls::CRelationSet::{add, add_path, update_tree, emit_path, emit}: spanning tree `paths`, `doubles`, `doubles_rev` as key-sorted "
+    "association lists, counters, emission order, the text of the relations.sieve lines (run, relLine)",
+    "last lines of group_structure_dense: invariants = diagonal entries != 1 (invariantsOf)",
+    "reference (not code): reduced primitive forms, classNumber, reduction, Gauss composition, prime forms (used to re-check relation lines "
+    "and class numbers of real runs inside the Lean driver)",
+]
+UNMODELLED = [
+    "classgroup::estimate (f64 truncated Euler product): there is no theorem that it brackets h; explored by K/O only "
+    "(every reported h is compared with an independent count)",
+    "that a sieved relation is a genuine relation (composition of forms / ideal arithmetic): every relation line of the sampled runs is "
+    "re-checked by independent form arithmetic (Python) and by the model's form arithmetic (Lean driver), not proved",
+    "the sieve itself (sieve::Sieve, smooths), select_siqs_factors/select_a/prepare_a, Poly::first/next, try_factor64, FBase::new / sqrt_mod "
+    "(C08), RelFilterSparse (structured Gauss elimination, trimming, duplicate removal), determinant / lattice index / Smith form (C19), "
+    "group_structure_sparse (returns no invariants: `FIXME: structure is incomplete` in the source), file output, rayon, RwLock",
+    "I256/u64 overflow inside Poly::eval and the sign decision (values are asserted < 2^255 by the code; primes < 2^32)",
+    "binary ymcls (argument parsing, negation of a positive argument, the 512-bit and `D mod 4` refusals, writing group.structure from the "
+    "returned value): thin wrapper, not exercised; the harness reads relations.sieve and classnumber written by the library call",
+]
+CLAIM = ("PARTIAL. Proved in Lean, for all inputs, about models tied to the code by differential runs: (1) the sign convention is well defined: "
+         "for every prime p there is exactly one normalised root b (0 <= b <= p, b = D mod 2, b^2 = D mod 4p), Prime::b_plus returns it for "
+         "both polynomial types, and the sign decision of sieve_block_poly is total and exclusive (b mod p is b_plus or p - b_plus whenever p divides "
+         "the polynomial value); (2) the relation store only ever emits relations it was given, for every history of add calls (spanning tree of "
+         "large primes included), hence any homomorphism to an abelian group that kills the sieved relations kills every line of relations.sieve; "
+         "(3) the reference enumeration of reduced primitive forms is exact (sound, complete, duplicate free), so `classNumber D` is the number "
+         "of reduced primitive forms; (4) the reported cyclic factors multiply to the reported class number whenever the Smith diagonal does. "
+         "NOT proved, explored only: that the analytic estimate pins the right multiple (every reported class number is compared with an "
+         "independent reduced-form count: exhaustively below the tier bound, randomly up to 2^40/2^44) and that sieved relations are genuine "
+         "(every line of relations.sieve of the sampled runs up to 128 bits is recomputed with independent form arithmetic; group invariants are "
+         "compared with the orders of all reduced forms for small h, 2-ranks with genus theory, generator coordinates with true element orders).")
+LEVEL_NOTE = ("Partial by nature: the user-visible guarantee (h is the class number, the group is the class group) rests on an f64 Euler product "
+              "and on ideal arithmetic; neither is a theorem here. What is proved is the bookkeeping around them (sign convention uniqueness and "
+              "totality, relation store = subset of inputs for all histories, exactness of the reference enumeration, product of invariants). "
+              "`number of reduced primitive forms = class number` is a named definition/hypothesis. Trusted: Lean kernel (+propext, "
+              "Classical.choice, Quot.sound), the hand models' correspondence to the Rust code (sampled: b_plus, relation store histories incl. the "
+              "private tree through a hook, the sign decision replayed on real sieve output through a per-polynomial hook), Python integers in the "
+              "oracle. A panic/refusal of classgroup() is not a wrong result and is only counted.")
+TECHNIQUE = "Lean 4 proof about a hand model + differential correspondence check + spec oracle (independent class numbers and form arithmetic)"
